@@ -9,11 +9,14 @@ package main
 
 import (
 	"context"
+	"errors"
 	"flag"
 	"fmt"
 	"math/rand"
 	"sync"
 	"time"
+
+	"github.com/arloliu/go-secs/v2/hsms"
 
 	"verifharness/genx"
 	"verifharness/vh"
@@ -70,9 +73,16 @@ func (s *S) finish() {
 	// injection (those are the scenarios' job)
 	e.WaitSettled(500 * time.Millisecond)
 	done := make(chan struct{})
-	go func() { _ = e.Close(); close(done) }()
+	var cerr error
+	go func() { cerr = e.Close(); close(done) }()
 	select {
 	case <-done:
+		// nothing in these scenarios wedges an application handler, so the bounded join of the
+		// last generation must complete: a close timeout means a goroutine of the generation was
+		// still waiting on something only the END of the teardown releases
+		if errors.Is(cerr, hsms.ErrCloseTimeout) {
+			s.fail("Close returned ErrCloseTimeout although no application handler is blocked", "final close")
+		}
 	case <-time.After(e.CloseTimeout + slack):
 		s.fail("Close did not return within closeTimeout + slack", "")
 	}
@@ -323,6 +333,153 @@ func blockedWrite(c *vh.Ctx, k cause) {
 	}
 }
 
+// scenario: a "stalled reader" peer. It completes Select, then stops reading: the generation's async
+// sender blocks in the middle of a write, the (small) async queue fills, and n application
+// goroutines park inside their fire-and-forget send waiting for queue space; optionally the peer
+// then sends one primary whose INLINE handler answers with ReplyDataMessage on the generation's own
+// receive goroutine, so that reply parks too. Then the generation ends by cause k. Every parked
+// send must be released by the START of the teardown: it returns within parkBound (far below
+// closeTimeout), Close does not time out, and the next generation is not delayed by closeTimeout.
+const parkBound = time.Second
+
+func parkedOnFullQueue(c *vh.Ctx, k cause, n int, inline bool) {
+	o := optsFor(k)
+	o.QueueSize, o.CloseTimeout = 2, 4*time.Second
+	switch k {
+	case cWriteTimeout:
+		o.WriteTimeout = 500 * time.Millisecond
+	case cT8:
+		o.T8 = 100 * time.Millisecond
+	}
+	if s1() {
+		o.T2 = time.Second // the stalled line must not exhaust the retries before the scripted end
+	}
+	name := fmt.Sprintf("parked-%s-n%d", causeName[k], n)
+	if inline {
+		name += "-inline"
+	}
+	s := newS(c, name, o, nil)
+	defer s.finish()
+	e := s.e
+	if !s.must(e.Open(5*time.Second) == nil, "open") {
+		return
+	}
+	s.probe(2)
+	time.Sleep(2 * time.Millisecond)
+	bg := context.Background()
+	p0 := e.Peer(0)
+	p0.StopRead.Store(true)
+	alive := func() bool { return e.Conn.State() == hsms.SelectedState && e.Gen() == 0 }
+	// 1 frame stuck in the sender's write + QueueSize queued + n parked
+	var queued, parked []*genx.Call
+	for i := 0; i < 1+o.QueueSize; i++ {
+		cl := e.Start(genx.KAsync, bg)
+		queued = append(queued, cl)
+		if !cl.Wait(2 * time.Second) {
+			if alive() {
+				s.must(false, "the first sends are queued")
+			}
+			return
+		}
+	}
+	for i := 0; i < n; i++ {
+		parked = append(parked, e.Start(genx.KAsync, bg))
+	}
+	time.Sleep(15 * time.Millisecond)
+	for _, cl := range parked {
+		select {
+		case <-cl.Done():
+			if alive() {
+				s.must(false, "a send waits for queue space")
+			}
+			c.Count("scenario-aborted:" + s.name) // the generation ended before the set-up was complete
+			return
+		default:
+		}
+	}
+	if inline {
+		e.InlineReply.Store(true)
+		_ = p0.Primary(900)
+		if !waitUntil(2*time.Second, func() bool { return len(e.Inline()) == 1 }) {
+			if alive() {
+				s.must(false, "the inline handler ran")
+			}
+			return
+		}
+		time.Sleep(5 * time.Millisecond)
+		if e.Inline()[0].Returned && alive() {
+			s.must(false, "the inline reply waits for queue space")
+			return
+		}
+	}
+	// end the generation
+	var t0 time.Time
+	switch k {
+	case cClose:
+		t0 = time.Now()
+		err := e.Close()
+		if d := time.Since(t0); d > parkBound {
+			s.fail("Close blocked although every wait of the generation is released by the start of its teardown", fmt.Sprintf("took=%s closeTimeout=%s", d.Round(time.Millisecond), o.CloseTimeout))
+		}
+		if errors.Is(err, hsms.ErrCloseTimeout) {
+			s.fail("Close returned ErrCloseTimeout although no application handler is blocked", "sends parked on a full async queue")
+		}
+	case cPeerClose:
+		t0 = time.Now()
+		p0.Close()
+	case cT8:
+		t0 = time.Now().Add(o.T8)
+		_ = p0.WriteRaw([]byte{0, 0, 0, 20, 0, 7})
+	case cWriteTimeout:
+		waitUntil(5*time.Second, func() bool { return e.Conn.State() != hsms.SelectedState || e.Gen() > 0 })
+		t0 = time.Now()
+	}
+	s.t0 = t0
+	late := func(what string, end time.Time, returned bool) {
+		if !returned {
+			s.fail("a send parked on the full async queue was not released when its generation ended", what+" never returned within the bound")
+		} else if d := end.Sub(t0); d > parkBound {
+			s.fail("a send parked on the full async queue was released late (by the end, not the start, of the teardown)", fmt.Sprintf("%s after=%s closeTimeout=%s", what, d.Round(10*time.Millisecond), o.CloseTimeout))
+		}
+	}
+	dl := t0.Add(parkBound + 500*time.Millisecond)
+	for _, cl := range parked {
+		ok := cl.Wait(time.Until(dl))
+		late(fmt.Sprintf("call=%d", cl.ID), cl.End, ok)
+		if ok && cl.Res != genx.RClosed && cl.Res != genx.RQueued {
+			s.fail("a parked fire-and-forget send completed with an unexpected result", fmt.Sprintf("call=%d result=%s", cl.ID, genx.ResName(cl.Res)))
+		}
+	}
+	if inline {
+		waitUntil(time.Until(dl), func() bool { return e.Inline()[0].Returned })
+		r := e.Inline()[0]
+		late("inline-reply", r.End, r.Returned)
+	}
+	e.InlineReply.Store(false)
+	if k == cClose {
+		if !s.must(e.Open(5*time.Second) == nil, "reopen") {
+			return
+		}
+	} else if !e.WaitSelected(1, parkBound+500*time.Millisecond-time.Since(t0)+time.Second) || time.Since(t0) > 2*parkBound {
+		s.fail("the next generation was delayed (reconnect waited for a close timeout)", fmt.Sprintf("after=%s closeTimeout=%s", time.Since(t0).Round(10*time.Millisecond), o.CloseTimeout))
+		if !e.WaitSelected(1, 10*time.Second) {
+			return
+		}
+	}
+	s.probe(3)
+}
+
+func waitUntil(d time.Duration, f func() bool) bool {
+	dl := time.Now().Add(d)
+	for time.Now().Before(dl) {
+		if f() {
+			return true
+		}
+		time.Sleep(200 * time.Microsecond)
+	}
+	return f()
+}
+
 // scenario: the peer of generation 0 never answers Select.req; T7 ends the generation; data sends
 // issued meanwhile are refused; generation 1 selects.
 func t7(c *vh.Ctx) {
@@ -509,6 +666,14 @@ func main() {
 		blockedWrite(c, cWriteTimeout)
 		if !s1() {
 			t7(c)
+			parkedOnFullQueue(c, cClose, 2+r.Intn(3), true)
+			parkedOnFullQueue(c, cPeerClose, 2+r.Intn(3), true)
+			parkedOnFullQueue(c, cWriteTimeout, 2+r.Intn(3), true)
+			parkedOnFullQueue(c, cT8, 2+r.Intn(3), false) // T8 needs the receive goroutine reading
+			parkedOnFullQueue(c, cPeerClose, 1, false)
+		} else {
+			parkedOnFullQueue(c, cClose, 2+r.Intn(3), false)
+			parkedOnFullQueue(c, cPeerClose, 2+r.Intn(3), false)
 		}
 	}
 	for i := 0; i < nRandom; i++ {
